@@ -15,6 +15,13 @@ pub enum Call {
     Exists,
     /// EXPIRE with a far-away deadline: only observes existence
     Touch,
+    /// GETSET: returns the old value
+    GetSet(Vec<u8>),
+    Strlen,
+    /// a one-field hash behaves like a register: HSET f v / HGET f / HDEL f
+    HSet(Vec<u8>),
+    HGet,
+    HDel,
 }
 
 #[derive(Debug, Clone, PartialEq, Eq)]
@@ -44,7 +51,10 @@ pub struct Event {
 /// which the harness records as Unknown anyway)
 fn step(state: &State, call: &Call) -> (State, Ret) {
     match call {
-        Call::Get => (state.clone(), Ret::Val(state.clone())),
+        Call::Get | Call::HGet => (state.clone(), Ret::Val(state.clone())),
+        Call::GetSet(v) => (Some(v.clone()), Ret::Val(state.clone())),
+        Call::Strlen => (state.clone(), Ret::Int(state.as_ref().map(|v| v.len() as i64).unwrap_or(0))),
+        Call::HSet(v) => (Some(v.clone()), Ret::Int(if state.is_some() { 0 } else { 1 })),
         Call::Set(v) => (Some(v.clone()), Ret::Ok),
         Call::SetNx(v) => match state {
             None => (Some(v.clone()), Ret::Int(1)),
@@ -66,7 +76,7 @@ fn step(state: &State, call: &Call) -> (State, Ret) {
                 None => (state.clone(), Ret::Unknown), // error reply, no effect
             }
         }
-        Call::Del => (None, Ret::Int(if state.is_some() { 1 } else { 0 })),
+        Call::Del | Call::HDel => (None, Ret::Int(if state.is_some() { 1 } else { 0 })),
         Call::Exists | Call::Touch => (state.clone(), Ret::Int(if state.is_some() { 1 } else { 0 })),
     }
 }
